@@ -36,6 +36,8 @@ def _items(tier):
             items.append(("postselbasis", d, c))
     for d in range(1, 9 if tier == "quick" else 13):
         items.append(("frontier", d))
+    for d in range(1, 6 if tier == "quick" else 7):
+        items.append(("findexlists", d))
     return items
 
 
@@ -477,3 +479,53 @@ def _frontier(ctx, item):
     if bad:
         _viol(ctx, item, bad[0], "int32 frontier: %s" % (bad,), frontier=True)
     ctx.sample({"kind": "frontier", "d": d, "largest_cutoff_below_2^31": c, "vectors": len(vectors)})
+
+
+def _findexlists(ctx, item):
+    """fermionic index lists used to apply passive gates (connectors/connections.py): for every cutoff
+    1..d+1 -- truncated cutoffs included -- and every mode window (plus ascending non-window subsets),
+    entry [i2, i1] of the n-particle matrix must be the fermionic rank of the assembled occupation vector,
+    and the matrix must list exactly the auxiliary configurations with fewer than cutoff - n particles."""
+    import numpy as np
+    from mc.refmodel import fockref as R
+    from piquasso._simulators.connectors import connections as Cn
+
+    _, d = item
+    bad = None
+    for cutoff in range(1, d + 2):
+        dim = R.f_dim(d, cutoff)
+        for k in range(1, d + 1):
+            for modes in itertools.combinations(range(d), k):
+                lst = Cn._nb_calculate_index_list_for_appling_interferometer(tuple(modes), d, cutoff)
+                aux = [m for m in range(d) if m not in modes]
+                auxbasis = R.f_basis(d - k, cutoff)
+                if len(lst) != cutoff:
+                    bad = bad or ("len", cutoff, modes, len(lst))
+                    continue
+                seen = set()
+                for n in range(cutoff):
+                    sec = R.f_sector(k, n) if n <= k else []
+                    auxn = [a for a in auxbasis if sum(a) < cutoff - n]
+                    M = np.asarray(lst[n])
+                    ctx.count("impl_checks")
+                    if M.shape != (len(sec), len(auxn)):
+                        bad = bad or ("shape", cutoff, modes, n, tuple(M.shape), (len(sec), len(auxn)))
+                        continue
+                    for i2, sub in enumerate(sec):
+                        for i1, a in enumerate(auxn):
+                            occ = [0] * d
+                            for m, x in zip(modes, sub):
+                                occ[m] = x
+                            for m, x in zip(aux, a):
+                                occ[m] = x
+                            ctx.count("impl_checks")
+                            exp = R.f_rank(tuple(occ))
+                            if int(M[i2, i1]) != exp or exp >= dim:
+                                bad = bad or ("entry", cutoff, modes, n, i2, i1, int(M[i2, i1]), exp)
+                            seen.add(int(M[i2, i1]))
+                if not bad and seen != set(range(dim)):
+                    bad = bad or ("not_a_bijection_onto_the_basis", cutoff, modes, len(seen), dim)
+                ctx.note_distinct(("findexlists", d, cutoff, modes))
+    if bad:
+        _viol(ctx, item, "fermionic_index_list", "first mismatch %s" % (bad,), what=bad[0])
+    ctx.sample({"kind": "findexlists", "d": d})
